@@ -162,3 +162,11 @@ Example a_loop_program : ResolveLet.fragE ResolveLet.demo_V ResolveLet.loop_prog
 Proof.
   split; [reflexivity|]. split; [exact ResolveLet.loop_agrees|]. eexists. vm_compute. split; reflexivity.
 Qed.
+
+(** quoted data is never annotated by the pass, whatever it contains *)
+From WalModel.proofs Require QuoteProofs.
+Theorem resolve_leaves_quoted_data_alone : forall start args,
+  resolve start (WL (VOp OQuote :: args)) = RsOk (WL (VOp OQuote :: args)) /\
+  resolve start (WL (VOp OQuasiquote :: args)) = RsOk (WL (VOp OQuasiquote :: args)).
+Proof. exact QuoteProofs.resolve_leaves_quoted. Qed.
+Print Assumptions resolve_leaves_quoted_data_alone.
